@@ -5,6 +5,7 @@ from hypothesis import strategies as st
 from vlib import strat as S, oracles as O
 
 ID = "C03"
+TARGETED = True     # thorough tier uses hypothesis.target on the residual/tolerance ratios
 RULE = ("Hypothesis: (a) constructors on all real angles (floats in [-1e3,1e3], multiples of pi/2 +- ulps) with the "
         "input checks off for out-of-range Euler angles and on for in-range ones, Rodrigues vectors |r| 1e-8..1e3; "
         "(b) inverses on proper rotations weighted towards PHI exactly 0/pi, PHI within 1e-12..1e-3 of 0/pi, "
@@ -95,6 +96,8 @@ def check(case, ctx):
         if _proper(ctx, "form_omega_mat_general", Og, m):
             ctx.near("omega_general=RxRyRz", O.maxabs(Og - O.Rx(a2) @ O.Ry(a3) @ O.Rz(a1)), tol, "form_omega_mat_general/formula",
                      "%s.form_omega_mat_general(%r,%r,%r) != Rx(chi)Ry(wedge)Rz(omega)" % (m, a1, a2, a3))
+        ctx.later("%s.form_omega_mat_general" % m, mod.form_omega_mat_general, a1, 0.1, -0.2)
+        ctx.later("%s.rod_to_u" % m, mod.rod_to_u, [0.1 * a1 / (1 + abs(a1)), 0.2, -0.3])
         T = mod.detect_tilt(a1, a2, a3)
         if _proper(ctx, "detect_tilt", T, m):
             ctx.near("tilt=RxRyRz", O.maxabs(T - O.Rx(a1) @ O.Ry(a2) @ O.Rz(a3)), tol, "detect_tilt/formula",
